@@ -433,7 +433,12 @@ class Machine:
                     else:
                         verdict, expected, detail = "succeed", (new, p0), "interior-knots"
             out.cls(("insert:" if inserting else "remove:") + detail)
-            target = _copy.deepcopy(kv) if False else kv
+            # the node sequence in any accepted form (one-shot iterables included), chosen from the step data
+            form = ("list", "tuple", "list", "gen", "iter", "map")[(self.step * 5 + len(nodes)) % 6]
+            if form in ("gen", "iter", "map"):
+                out.cls("nodes-as-" + form)
+                detail += ";one-shot-iterable"
+            nodes = lib.seq_form(nodes, form)
             if name == "insert":
                 res, exc = call(lambda: kv.insert(nodes))
             elif name == "remove":
